@@ -298,6 +298,39 @@ pub fn run_c17(ctx: &Ctx) -> i32 {
         if r != Ok(false) {
             rep.violation("artifact / other-shape artifacts accepted", "PublicBatchProver::new_from_bytes accepted N=1 private-batch artifacts for num_leaf_proofs=2", json!({}));
         }
+        // shape history in one process: after an aggregator for (N=1, M=2) was loaded, (a) the same directory relabelled
+        // as M=1 or M=3 must be rejected, (b) genuine (N=1, M=1) artifacts must still be accepted, (c) then M=2 again
+        {
+            let relabel = |m: usize| bins.variant("relabel", &[("config.json", format!("{{\"num_leaf_proofs\":1,\"num_private_batch_proofs\":{m}}}").into_bytes())]);
+            let first = guarded(|| PublicBatchAggregator::new(&bins.dir, BytesDigest::default()).is_ok());
+            for m in [1usize, 3] {
+                rep.eval();
+                rep.nontrivial(&("relabel", m));
+                let d = relabel(m);
+                let r = guarded(|| (PublicBatchAggregator::new(&d, BytesDigest::default()).is_ok(), PublicBatchProver::new_from_binaries_dir(&d).is_ok()));
+                match r {
+                    Ok((false, _)) => rep.count("relabelled_directory_rejected"),
+                    Ok((true, _)) => rep.violation("artifact / public-batch artifacts of another shape accepted", &format!("after loading shape (1,2), a directory with the same public-batch artifacts but config M={m} was accepted by the aggregator"), json!({"m": m})),
+                    Err(p) => rep.violation("artifact / aggregator init panics", &p, json!({"m": m})),
+                }
+            }
+            if let Ok(b1) = Bins::generate(1, 1) {
+                rep.eval();
+                rep.nontrivial(&"second-shape");
+                let r1 = guarded(|| PublicBatchAggregator::new(&b1.dir, BytesDigest::default()).is_ok());
+                let r2 = guarded(|| PublicBatchAggregator::new(&bins.dir, BytesDigest::default()).is_ok());
+                if first != Ok(true) || r1 != Ok(true) || r2 != Ok(true) {
+                    rep.violation("artifact / canonical artifacts rejected after another shape was loaded", &format!("loading canonical artifacts for shapes (1,2), (1,1), (1,2) in one process gave {first:?}, {r1:?}, {r2:?}"), json!({}));
+                }
+                // and the (1,1) public artifacts inside the (1,2) directory
+                let d = bins.variant("mix", &[("public_batch_common.bin", b1.read("public_batch_common.bin")), ("public_batch_verifier.bin", b1.read("public_batch_verifier.bin"))]);
+                if guarded(|| PublicBatchAggregator::new(&d, BytesDigest::default()).is_ok()) != Ok(false) {
+                    rep.violation("artifact / public-batch artifacts of another shape accepted", "public-batch artifacts canonical for M=1 were accepted by an aggregator configured for M=2", json!({}));
+                }
+            } else {
+                rep.note("could not generate a second artifact set (1,1)");
+            }
+        }
         // swapped files
         let r = guarded(|| WormholeVerifier::new_from_bytes(&cb, &vb).is_ok());
         if r != Ok(false) {
@@ -916,6 +949,41 @@ pub fn run_c18(ctx: &Ctx) -> i32 {
             }
             if !ctx.tier.pick(false, true) && bi > *ai + 2 {
                 break;
+            }
+        }
+    }
+    // neighbour addresses: differ from the proof's address in a single limb / a single byte / all limbs but one
+    for (ai, proof) in proofs.iter().take(ctx.tier.pick(2, 8)) {
+        let a = d4_bytes(&addrs[*ai]);
+        let mut neighbours: Vec<[u8; 32]> = vec![];
+        for limb in 0..4 {
+            let mut b = a;
+            b[limb * 8] ^= 1; // lowest byte of one limb
+            neighbours.push(b);
+            let mut c = a;
+            for other in 0..4 {
+                if other != limb {
+                    c[other * 8 + 1] ^= 0x40; // every limb but one
+                }
+            }
+            neighbours.push(c);
+        }
+        let mut d = a;
+        d[31] ^= 0x01;
+        neighbours.push(d);
+        for nb in neighbours {
+            let Ok(addr_b) = BytesDigest::try_from(nb) else { continue };
+            if nb == a {
+                continue;
+            }
+            let Ok(agg_b) = PublicBatchAggregator::new(&bins.dir, addr_b) else { continue };
+            rep.eval();
+            rep.nontrivial(&("neighbour", ai, nb));
+            match guarded(|| agg_b.verify(proof.clone())) {
+                Ok(Err(_)) => rep.count("neighbour_address_rejected"),
+                Ok(Ok(())) => rep.violation("address / proof bound to a neighbouring address accepted", "an aggregator accepted a valid proof whose exposed address differs from its own in only some limbs",
+                    json!({"proof_address": hex::encode(a), "verifier_address": hex::encode(nb)})),
+                Err(p) => rep.violation("address / verify panics", &p, json!({})),
             }
         }
     }
